@@ -159,11 +159,15 @@ def _identity_items(names):
 
 
 @contextlib.contextmanager
-def rebound(ctx, names, extra=()):
-    """Activate rebindings for a symbolic path; no-op for ConcreteCtx."""
+def rebound(ctx, names, extra=(), always=False):
+    """Activate rebindings for a symbolic path; no-op for ConcreteCtx, except `extra` items when `always` is set:
+    environment models (iteration order of a set = PYTHONHASHSEED, completion order of a pool) are inputs chosen by the
+    solver, and a counterexample that depends on them can only be replayed under the same environment."""
     if getattr(ctx, "concrete", False):
-        yield
-        return
+        if not always:
+            yield
+            return
+        names = []
     import importlib
 
     saved = []
